@@ -1,15 +1,354 @@
 /-
-  Driver engine stub (Det): replaced by the real engine; see notes/AGENT_BRIEF.md.
+  Driver engine for C14 (commands `det.*`, harness `harness/h_det.cpp`).
+
+  Per line, in this order:
+   1. the property predicates of Model/DetPred.lean (the definitions the theorems of Props/C14.lean
+      conclude with) are evaluated on the implementation's OBSERVED output: window dimensions,
+      normalised probability matrix (exact bit patterns -> exact rationals), pick sequence
+      -> `PROPFAIL C14 <predicate> ...`, or `KNOWN C14 <Fxx> ...` inside the region of an open finding
+      (regions are decidable predicates on the INPUTS: `f21Region`, `f23Region`, `f25Region`);
+   2. the model (Model/Det.lean at `TF.float`) is run and compared -> `MISMATCH ...`:
+      * window dimensions: the model's `windowDims` on the observed `max_distance` (the same IEEE
+        division and ceil as the C++), exact;
+      * `max_distance`, matrix, pdf, icdf: Float twin, relative tolerance 1e-9;
+      * pick sequence: the model's `call` replayed on the observed matrix; IEEE subtraction and
+        comparison are deterministic, so the comparison is exact.
+  Numeric inverse check `|cdf (icdf p) - p| <= tol`: tol = 1e-9 for the closed-form laws,
+  `looseTol` = 2e-3 for the approximate quantiles (normal, log-normal, gamma) - model validation.
 -/
 import PopsModel.Driver.Util
+import PopsModel.Model.Det
+import PopsModel.Model.DetPred
+import PopsModel.Model.DetNum
 namespace Pops.Driver.DetEng
-open Pops Pops.Driver
+open Pops Pops.Driver Pops.Det
+
+def tightTol : Float := 1e-9
+/-- Stated in tools/props/C14.py: tolerance of the approximate quantiles (Winitzki, Newton to 1e-3). -/
+def looseTol : Float := 2e-3
+/-- Slack of the quota predicates for the floating-point subtraction of 1/N. -/
+def quotaEps : Rat := mkRat 1 1000000
+def sumEps : Rat := mkRat 1 1000000000
+/-- Relative slack on `max_distance` for the rounding of the double division. -/
+def coverSlack : Rat := mkRat 1 1000000000000
+
+def emptyKernel : Kernel Float :=
+  { law := none, rows := 0, cols := 0, midRow := 0, midCol := 0, dmax := 0.0, prob := [] }
 
 structure State where
-  dummy : Unit := ()
-deriving Inhabited
+  built : Bool := false
+  law : Option Law := none
+  pct : Rat := 0
+  ew : Rat := 0
+  ns : Rat := 0
+  scale : Rat := 0
+  shape : Rat := 0
+  K : Kernel Float := emptyKernel
+  ks : KState Float := { prevRow := -1, prevCol := -1, delta := 0.0, copy := [] }
+  pRat : Option (List Rat) := none     -- observed matrix as exact rationals, when it is a probability vector
+  pBits : List Nat := []               -- observed matrix, bit patterns
+  counts : List Nat := []              -- dispersers received per window cell in the current run
+  t : Nat := 0                         -- calls in the current run
+  nRun : Nat := 0                      -- dispersers of the current run's source cell
+  preds : Bool := false                -- the current run is a fresh allotment (predicates apply)
 
-def handle (st : State) (_cmd : String) (_inp _obs : List String) : State × String :=
-  (st, "BADLINE")
+instance : Inhabited State := ⟨{}⟩
+
+def ratToFloat (q : Rat) : Float := Float.ofInt q.num / Float.ofNat q.den
+def bitsToFloat? (s : String) : Option Float := s.toNat?.map fun n => Float.ofBits (UInt64.ofNat n)
+
+def relClose (a b tol : Float) : Bool :=
+  a == b || (a.isNaN && b.isNaN) ||
+    Float.abs (a - b) ≤ tol * (if Float.abs a < Float.abs b then Float.abs b else Float.abs a) + 1e-300
+
+/-- Region of the open finding F21: the quantile is not the inverse of the cdf of the coded density
+    (power law; exponential power via the gamma helper; gamma with a non-integer shape, whose
+    Newton iteration inverts the Erlang-only `GammaKernel::cdf`). -/
+def f21Region (law : Law) (scale : Rat) : Bool :=
+  law == .powerlaw || law == .exppower || (law == .gamma && scale.den != 1)
+/-- Region of F23: two-sided law and percentage below one half (negative quantile). -/
+def f23Region (law : Law) (pct : Rat) : Bool := law.twoSided && decide (pct < mkRat 1 2)
+/-- Region of F25: density unbounded at distance 0. -/
+def f25Region (law : Law) (scale shape : Rat) : Bool :=
+  (law == .weibull && decide (shape < 1)) || (law == .gamma && decide (scale < 1))
+
+def quantTol (law : Law) : Float :=
+  match law with
+  | .normal | .lognormal | .gamma => looseTol
+  | _ => tightTol
+
+/-- `|cdf (x) - p| ≤ tol` with the reference cdf of the law's density. -/
+def quantileInverse (law : Law) (scale shape p : Rat) (x : Float) : Bool :=
+  let c := Num.lawCdf law (ratToFloat scale) (ratToFloat shape) x
+  Float.abs (c - ratToFloat p) ≤ quantTol law
+
+def showF (x : Float) : String := toString x
+
+def errOf : BuildErr → String
+  | .std e => errTok e
+  | .badAlloc => "err:other"
+
+/-- The constructor's outcome up to the allocation, from the model's own definitions
+    (`memberCtorThrows`, `lawIcdf`, `windowDims`; cf. `build_ok` in Lemmas/Det.lean) without filling
+    the window, whose size is unbounded when model and code disagree on `max_distance`. -/
+def modelHead (law : Option Law) (pct ew ns scale shape : Float) : Except BuildErr (Float × Int × Int) :=
+  let T := TF.float
+  if memberCtorThrows T scale shape then .error (.std .invalid_argument)
+  else match law with
+  | none => .ok (0.0, 0, 0)
+  | some lw =>
+    match lawIcdf T lw scale shape pct with
+    | .error e => .error (.std e)
+    | .ok dmax =>
+      let (rows, cols) := windowDims T dmax ns ew
+      if rows * cols < 0 then .error .badAlloc else .ok (dmax, rows, cols)
+
+def inDomain (pct ew ns scale shape : Rat) : Bool :=
+  decide (0 < scale) && decide (0 < shape) && decide (0 < pct) && decide (pct < 1) && decide (0 < ew) && decide (0 < ns)
+
+def handleNew (lawTok : String) (args obs : List String) : State × String :=
+  let st0 : State := {}
+  let lawOpt := Law.ofName? lawTok
+  if lawOpt.isNone && lawTok != "none" then (st0, "BADLINE") else
+  match parseRats? args with
+  | some [pct, ew, ns, scale, shape] =>
+    let T := TF.float
+    let (pctF, ewF, nsF, scaleF, shapeF) := (ratToFloat pct, ratToFloat ew, ratToFloat ns, ratToFloat scale, ratToFloat shape)
+    let model := modelHead lawOpt pctF ewF nsF scaleF shapeF
+    let dom := inDomain pct ew ns scale shape
+    let base : State := { law := lawOpt, pct := pct, ew := ew, ns := ns, scale := scale, shape := shape }
+    match obs with
+    | ["ok", rs, cs, db] =>
+      match parseInt? rs, parseInt? cs, bitsToFloat? db with
+      | some rows, some cols, some dmax =>
+        let K : Kernel Float := { law := lawOpt, rows := rows, cols := cols, midRow := Int.tdiv rows 2,
+                                  midCol := Int.tdiv cols 2, dmax := dmax, prob := [] }
+        let st : State := { base with built := true, K := K, ks := initState T K }
+        match lawOpt, model with
+        | none, .ok (_, mr, mc) => (st, if mr == rows && mc == cols then "ok" else s!"MISMATCH det.new model=ok {mr} {mc}")
+        | _, .error e => (st, s!"MISMATCH det.new model={errOf e}")
+        | some law, .ok (mdmax, _, _) =>
+          if !dom then (st, "MISMATCH det.new model=ok outside-domain") else
+          if !WindowExists rows cols then
+            (st, if f23Region law pct then s!"KNOWN C14 F23 no-window rows={rows} cols={cols} max_distance={showF dmax}"
+                 else s!"PROPFAIL C14 window-exists rows={rows} cols={cols}")
+          else match FloatFn.toRat? dmax with
+          | none => (st, "PROPFAIL C14 window-covers max_distance-not-finite")
+          | some d =>
+            let s := (if d < 0 then -d else d) * coverSlack
+            if !(WindowCovers (d - s) (d + s) ns rows && WindowCovers (d - s) (d + s) ew cols) then
+              (st, s!"PROPFAIL C14 window-covers rows={rows} cols={cols} max_distance={showF dmax}")
+            else if !quantileInverse law scale shape pct dmax then
+              let det := s!"quantile-inverse {law.name} icdf={showF dmax} cdf={showF (Num.lawCdf law scaleF shapeF dmax)} p={showF pctF}"
+              (st, if f21Region law scale then s!"KNOWN C14 F21 {det}" else s!"PROPFAIL C14 {det}")
+            else if windowDims T dmax nsF ewF != (rows, cols) then
+              (st, s!"MISMATCH det.new dims model={(windowDims T dmax nsF ewF).1} {(windowDims T dmax nsF ewF).2}")
+            else if !relClose mdmax dmax tightTol then (st, s!"MISMATCH det.new max_distance model={showF mdmax}")
+            else (st, "ok")
+      | _, _, _ => (st0, "BADLINE")
+    | [err] =>
+      if !err.startsWith "err:" then (st0, "BADLINE") else
+      match lawOpt with
+      | some law =>
+        if dom then
+          (base, if f23Region law pct then s!"KNOWN C14 F23 constructor-throws {err}"
+                 else s!"PROPFAIL C14 window-exists constructor-throws {err}")
+        else match model with
+          | .error e => (base, if errOf e == err then "ok" else s!"MISMATCH det.new model={errOf e}")
+          | .ok _ => (base, "MISMATCH det.new model=ok")
+      | none => match model with
+          | .error e => (base, if errOf e == err then "ok" else s!"MISMATCH det.new model={errOf e}")
+          | .ok _ => (base, "MISMATCH det.new model=ok")
+    | _ => (st0, "BADLINE")
+  | _ => (st0, "BADLINE")
+
+/-- First index where the two lists are not close. -/
+def firstFar (a b : List Float) (tol : Float) : Option Nat :=
+  let rec go : List Float → List Float → Nat → Option Nat
+    | x :: xs, y :: ys, i => if relClose x y tol then go xs ys (i + 1) else some i
+    | [], [], _ => none
+    | _, _, i => some i
+  go a b 0
+
+def handleProb (st : State) (args obs : List String) : State × String :=
+  match args with
+  | [rs, cs] =>
+    match parseInt? rs, parseInt? cs, obs.mapM String.toNat? with
+    | some rows, some cols, some bitsL =>
+      if !st.built || rows != st.K.rows || cols != st.K.cols || rows < 1 || cols < 1
+          || bitsL.length != (rows * cols).toNat then (st, "BADLINE") else
+      let T := TF.float
+      let fl := bitsL.map fun n => Float.ofBits (UInt64.ofNat n)
+      let rats := fl.mapM FloatFn.toRat?
+      let normal := match rats with | some ps => Normalised ps sumEps | none => false
+      let K := { st.K with prob := fl }
+      let st' : State := { st with K := K, ks := initState T K, pBits := bitsL,
+                                   pRat := if normal then rats else none, counts := [], t := 0, preds := false }
+      match st.law with
+      | none => (st', "BADLINE")
+      | some law =>
+        if !normal then
+          (st', if f25Region law st.scale st.shape then "KNOWN C14 F25 weights-not-a-probability-vector (density unbounded at the centre)"
+                else "PROPFAIL C14 normalised weights-not-a-probability-vector")
+        else
+          let nr := rows.toNat; let nc := cols.toNat
+          let badMirror := (List.range (nr * nc)).find? fun c =>
+            !(mirrorCells nr nc c).all fun d => bitsL.getD c 0 == bitsL.getD d 1
+          match badMirror with
+          | some c => (st', s!"PROPFAIL C14 mirror-weights cell {c / nc} {c % nc}")
+          | none =>
+            let (pF, eF, nF, sF, hF) := (ratToFloat st.pct, ratToFloat st.ew, ratToFloat st.ns, ratToFloat st.scale, ratToFloat st.shape)
+            match modelHead (some law) pF eF nF sF hF with
+            | .ok (_, mr, mc) =>
+              if mr != rows || mc != cols then (st', "ok")   -- different window: reported on the det.new line
+              else match build T (some law) pF eF nF sF hF with
+                | .ok m =>
+                  match firstFar fl m.prob tightTol with
+                  | some k => (st', s!"PROPFAIL C14 weight-proportional cell {k / nc} {k % nc} observed={showF (fl.getD k 0.0)} density/sum={showF (m.prob.getD k 0.0)}")
+                  | none => (st', "ok")
+                | .error _ => (st', "ok")
+            | .error _ => (st', "ok")
+    | _, _, _ => (st, "BADLINE")
+  | _ => (st, "BADLINE")
+
+def handleCall (st : State) (args obs : List String) : State × String :=
+  match parseInts? args with
+  | some [row, col, n] =>
+    if !st.built then (st, "BADLINE") else
+    let T := TF.float
+    let model := call T st.K st.ks row col n
+    match obs, model with
+    | [err], .error e =>
+      (st, if err == errTok e then "ok" else s!"MISMATCH det.call model={errTok e}")
+    | [_], .ok (_, (mr, mc)) => (st, s!"MISMATCH det.call model={mr} {mc}")
+    | [rs, cs], _ =>
+      match parseInt? rs, parseInt? cs with
+      | some r, some c =>
+        let K := st.K
+        -- follow the implementation: if it picked another cell than the model, the subtraction is
+        -- applied where the implementation put the disperser, so that one divergence is one MISMATCH
+        let ks' := match model with
+          | .ok (k, (mr, mc)) =>
+            if mr == r && mc == c then k
+            else
+              let changed := sourceChanged st.ks row col
+              let base := if changed then K.prob else st.ks.copy
+              let oi := (r - row + K.midRow) * K.cols + (c - col + K.midCol)
+              if 0 ≤ oi then { k with copy := base.modify oi.toNat (· - k.delta) } else k
+          | .error _ => st.ks
+        let nr := K.rows.toNat; let nc := K.cols.toNat
+        let changed := sourceChanged st.ks row col
+        -- the allocation starts afresh for every new source cell: counts restart with it
+        let (counts, t, nRun, preds) :=
+          if changed then (List.replicate (nr * nc) 0, 0, n.toNat, true)
+          else if st.t ≥ st.nRun || n.toNat != st.nRun then (st.counts, st.t, st.nRun, false)
+          else (st.counts, st.t, st.nRun, st.preds)
+        let di := r - row + K.midRow
+        let dj := c - col + K.midCol
+        let inside := decide (0 ≤ di) && decide (di < K.rows) && decide (0 ≤ dj) && decide (dj < K.cols)
+        if !inside then
+          let stn := { st with ks := ks', counts := counts, t := t + 1, nRun := nRun, preds := false }
+          match st.law with
+          | some law =>
+            if !WindowExists K.rows K.cols && f23Region law st.pct then (stn, s!"KNOWN C14 F23 no-window disperser-stays-in-source-cell {r} {c}")
+            else (stn, s!"PROPFAIL C14 outside-window {r} {c}")
+          | none => (stn, "BADLINE")
+        else
+          let idx := (di * K.cols + dj).toNat
+          let counts := counts.modify idx (· + 1)
+          let t := t + 1
+          let stn := { st with ks := ks', counts := counts, t := t, nRun := nRun, preds := preds }
+          let pv : Option String :=
+            match preds, st.pRat with
+            | true, some p =>
+              if !QuotaUpperAt nRun p counts quotaEps idx then some s!"quota-upper cell {idx / nc} {idx % nc} k={counts.getD idx 0} N={nRun} t={t}"
+              else if !MirrorBoundAt nr nc counts idx then some s!"mirror cell {idx / nc} {idx % nc} t={t}"
+              else if !((List.range (nr * nc)).all fun d => st.pBits.getD d 0 != st.pBits.getD idx 1 || near1 (counts.getD idx 0) (counts.getD d 0)) then
+                some s!"equal-share cell {idx / nc} {idx % nc} t={t}"
+              else if t == nRun && !QuotaBound nRun p counts quotaEps then
+                let bad := (List.range p.length).find? fun cc => !(decide (excess nRun p counts cc ≤ 1 + quotaEps) && decide (-(1 + quotaEps) ≤ excess nRun p counts cc))
+                let cc := bad.getD 0
+                some s!"quota cell {cc / nc} {cc % nc} k={counts.getD cc 0} N*p={showF (ratToFloat ((nRun : Rat) * p.getD cc 0))} N={nRun}"
+              else if t == nRun && !MirrorBound nr nc counts then some s!"mirror end-of-run N={nRun}"
+              else none
+            | _, _ => none
+          match pv with
+          | some d => (stn, s!"PROPFAIL C14 {d}")
+          | none =>
+            match model with
+            | .ok (_, (mr, mc)) => (stn, if mr == r && mc == c then "ok" else s!"MISMATCH det.call model={mr} {mc}")
+            | .error e => (stn, s!"MISMATCH det.call model={errTok e}")
+      | _, _ => (st, "BADLINE")
+    | _, _ => (st, "BADLINE")
+  | _ => (st, "BADLINE")
+
+def cmpExceptFloat (what : String) (model : Except ErrKind Float) (obs : List String) (absTol : Float := 0.0) : String :=
+  match obs with
+  | [o] =>
+    if o.startsWith "err:" then
+      match model with
+      | .error e => if o == errTok e then "ok" else s!"MISMATCH {what} model={errTok e}"
+      | .ok v => s!"MISMATCH {what} model={showF v}"
+    else match bitsToFloat? o, model with
+      | some x, .ok v => if relClose x v tightTol || Float.abs (x - v) ≤ absTol then "ok" else s!"MISMATCH {what} model={showF v} observed={showF x}"
+      | some _, .error e => s!"MISMATCH {what} model={errTok e}"
+      | none, _ => "BADLINE"
+  | _ => "BADLINE"
+
+def handleQ (args obs : List String) : String :=
+  match args with
+  | [lawTok, sc, sh, ps] =>
+    match Law.ofName? lawTok, parseRat? sc, parseRat? sh, parseRat? ps with
+    | some law, some scale, some shape, some p =>
+      let T := TF.float
+      let model := lawIcdf T law (ratToFloat scale) (ratToFloat shape) (ratToFloat p)
+      let dom := decide (0 < scale) && decide (0 < shape) && decide (0 < p) && decide (p < 1)
+      match obs with
+      | [o] =>
+        if o.startsWith "err:" then
+          if dom then
+            (if f21Region law scale then s!"KNOWN C14 F21 quantile-inverse {law.name} icdf-throws {o}"
+             else s!"PROPFAIL C14 quantile-inverse {law.name} icdf-throws {o}")
+          else cmpExceptFloat "det.q" model obs
+        else match bitsToFloat? o with
+          | some x =>
+            if !dom then cmpExceptFloat "det.q" model obs
+            else if !quantileInverse law scale shape p x then
+              let det := s!"quantile-inverse {law.name} icdf={showF x} cdf={showF (Num.lawCdf law (ratToFloat scale) (ratToFloat shape) x)} p={showF (ratToFloat p)}"
+              if f21Region law scale then s!"KNOWN C14 F21 {det}" else s!"PROPFAIL C14 {det}"
+            else cmpExceptFloat "det.q" model obs
+          | none => "BADLINE"
+      | _ => "BADLINE"
+    | _, _, _, _ => "BADLINE"
+  | _ => "BADLINE"
+
+def handlePdf (args obs : List String) : String :=
+  match args with
+  | [lawTok, sc, sh, xb] =>
+    match Law.ofName? lawTok, parseRat? sc, parseRat? sh, bitsToFloat? xb with
+    | some law, some scale, some shape, some x =>
+      cmpExceptFloat "det.pdf" (lawPdf TF.float law (ratToFloat scale) (ratToFloat shape) x) obs
+    | _, _, _, _ => "BADLINE"
+  | _ => "BADLINE"
+
+def handleGcdf (args obs : List String) : String :=
+  match args with
+  | [sc, sh, xb] =>
+    match parseRat? sc, parseRat? sh, bitsToFloat? xb with
+    | some alpha, some theta, some x =>
+      -- `1 - sum` cancels for small x: a value in [0, 1] is compared with an absolute tolerance as well
+      cmpExceptFloat "det.gcdf" (.ok (gammaCdfOwn TF.float (ratToFloat alpha) (ratToFloat theta) x)) obs 1e-12
+    | _, _, _ => "BADLINE"
+  | _ => "BADLINE"
+
+def handle (st : State) (cmd : String) (inp obs : List String) : State × String :=
+  match cmd, inp with
+  | "det.new", lawTok :: args => handleNew lawTok args obs
+  | "det.prob", args => handleProb st args obs
+  | "det.call", args => handleCall st args obs
+  | "det.q", args => (st, handleQ args obs)
+  | "det.pdf", args => (st, handlePdf args obs)
+  | "det.gcdf", args => (st, handleGcdf args obs)
+  | _, _ => (st, "BADLINE")
 
 end Pops.Driver.DetEng
